@@ -330,6 +330,11 @@ def r5(ck, F):
                 continue
             up = [c for c in p.conds if c[0][0] == "discr" and c[0][1][0] == "call" and c[0][1][1].endswith("Registrar::upgrade")]
             gt = [c for c in p.conds if c[0][0] == "call" and c[0][1].endswith("PartialOrd::gt")]
+            # `max_level < hint` is the same test with the operands swapped: normalise to gt(hint, max_level)
+            for c in p.conds:
+                if c[0][0] == "call" and c[0][1].endswith("PartialOrd::lt") and len(c[0][2]) == 2:
+                    t = c[0]
+                    gt.append((("call", t[1][:-2] + "gt", (t[2][1], t[2][0])) + tuple(t[3:]), c[1], c[2]))
             live = bool(up) and up[0][1] == 1
             wrote = False
             for bb in p.blocks:
